@@ -119,7 +119,7 @@ func c18(c *core.Ctx) {
 					if ef.Fact.Op == token.ILLEGAL && ef.Fact.Neg && ef.Fact.X == okV {
 						bad = false
 						v := core.Walk(core.Loc{B: ef.B.Succs[ef.Succ], Idx: 0}, nil, nil)
-						for _, r := range core.Returns(fn) {
+						for _, r := range core.ErrReturns(fn) {
 							if v[r] && core.ClassifyErr(r.Results[len(r.Results)-1], r) != core.ErrNonNil {
 								bad = true
 							}
@@ -154,7 +154,7 @@ func c18(c *core.Ctx) {
 				c.Check(gSet, key+":can-set", set.Pos(), "dest.Set(src) only on the CanSet() edge", "reflective assignment without CanSet(): an unsettable destination panics instead of returning an error")
 				// failing edges return non-nil
 				okFail := 0
-				for _, r := range core.Returns(fn) {
+				for _, r := range core.ErrReturns(fn) {
 					if core.ClassifyErr(r.Results[len(r.Results)-1], r) == core.ErrNonNil && !core.Reachable(core.After(set), r) {
 						okFail++
 					}
@@ -308,6 +308,22 @@ func c18(c *core.Ctx) {
 				c.Check(okDest, key+":assigns-into-out", set.Pos(), "the assignment goes into the 'out' parameter", "the reflective assignment does not go into the destination parameter")
 				c.Check(userClone != nil && userClone.Call.Args[0] == ssa.Value(fn.Params[1]), key+":clones-the-source", set.Pos(), "the clone function is applied to the source parameter", "the clone function is not applied to the source")
 			}
+		}
+		c.EndRule()
+	}
+
+	// ---------------------------------------------------------------- R5
+	if c.Rule("R5", "no copy succeeds without copying the whole message: in every func(out, in) error of the adapters and of the default message copy, each possibly-nil return is preceded on all paths by one write of the whole destination from the source (delegated copy, type-checking merge, Unmarshal of the source's bytes, reflect Set of the destination value itself) — no shortcut for 'empty' sources (which would also skip the type check) and no field-by-field copy (which skips unexported state such as unknown fields); obligations shared with C06/R5", 5) {
+		for _, pk := range []string{"inprocgrpc", "internal"} {
+			for _, fn := range p.LibFuncs(pk) {
+				c06CopyWrites(c, fn)
+			}
+		}
+		for _, fn := range p.LibFuncs("inprocgrpc") {
+			c06CloneFresh(c, fn)
+		}
+		for _, fn := range p.LibFuncs("internal") {
+			c06CloneFresh(c, fn)
 		}
 		c.EndRule()
 	}
